@@ -406,6 +406,29 @@ class C20(Check):
                     mon.append('to_bytes(load(image)) != image for a canonical image')
             except Exception as e:      # noqa
                 mon.append(f'load rejected its own to_bytes output: {exc_name(e)}')
+            # the object lives on: some blocks get other data of the same size and flags (inline 4-byte blocks and out-of-line ones),
+            # possibly blocks are added, and the save is serialised AGAIN - the second image must be the image of the second value
+            if stored and not mon:
+                for bid, fl, data in rng.sample(stored, min(len(stored), rng.randint(1, 3))):
+                    c.set_block(bid, rng.rbytes(len(data)), fl if rng.chance(0.5) else None)
+                if rng.chance(0.3):
+                    extra = [i for i in sorted(kb) if i not in c.blocks]
+                    if extra:
+                        i = rng.pick(extra)
+                        c.set_block(i, rng.rbytes(kb[i]['size']), kb[i]['flags'])
+                stored2 = [(bid, c.blocks[bid].flags, c.blocks[bid].data) for bid in c.blocks]
+                try:
+                    raw2 = c.to_bytes()
+                    real += ' second ' + hashlib.sha256(raw2).hexdigest()
+                    got2 = [(bid, b.flags, b.data) for bid, b in ConfigSaveReader.load(io.BytesIO(raw2)).blocks.items()]
+                    if raw2 != self.cfg_build(stored2) or got2 != stored2:
+                        mon.append('after editing blocks in place, the second to_bytes() is not the image of the edited save '
+                                   '(load(to_bytes(v2)) != v2)')
+                except Exception as e:      # noqa
+                    real += ' second e:' + exc_name(e)
+                    mon.append(f'second to_bytes / load raised {exc_name(e)}')
+                m2 = drv.ask(sexp(['cfg-build', [[b, f, d] for b, f, d in stored2]]))
+                model += ' second ' + (hashlib.sha256(bytes.fromhex(m2[3:])).hexdigest() if m2.startswith('ok ') else m2)
         return real, model, mon
 
     def run_cfg_typed(self, case, rng, drv):
@@ -426,7 +449,7 @@ class C20(Check):
             except Exception as e:      # noqa
                 return 'e:' + exc_name(e)
         for _ in range(rng.randint(1, 8)):
-            k = rng.pick(['user', 'user', 'time', 'model', 'set', 'get', 'roundtrip'])
+            k = rng.pick(['user', 'user', 'time', 'model', 'model', 'set', 'get', 'roundtrip', 'roundtrip'])
             if k == 'user':
                 units = rng.pick([0, 1, 3, 9, 10, 13, 14, 15])
                 v = ''
